@@ -203,6 +203,24 @@ def template_jobs(ctx, n):
             root = "root"
         jobs.append(dict(prog=prog, root=root, inputs=["a 1", "a 1 c", "a q", "q", "a x 1", "a x 1 c", "a x q", "a 1 1 c", "a",
                                                        "a x", "a 1 a 1 ;", "y a"]))
+    # (c) trial parses: two sequences of an Or start with the same Forward; the first matches further elements and fails
+    #     late, the second carries a condition that runs during the trial pass and looks at the tokens it is handed
+    for i in range(max(n // 3, 20)):
+        r = random.Random(f"C03-{ctx.seed}-tpl-trial-{i}")
+        prog = [["F", "Forward"], ["d", "Word", "01"], ["_", "<<=", "F", "d"], ["c", "Literal", ","], ["bang", "Literal", "!"],
+                ["d2", "Word", "01"]]
+        m = r.choice([1, 2])
+        s1 = ["F"] + ["c", "d2"] * m + ["bang"]
+        s2 = ["F"] + ["c", "d2"] * m
+        prog += [["s1", "And", s1], ["s2", "And", s2], ["_", "cond_len", "s2", len(s2), {"call_during_try": True}]]
+        k = r.choice(["or", "or", "not", "skipto"])
+        if k == "or":
+            prog.append(["root", "Or", ["s1", "s2"]])
+        elif k == "not":
+            prog += [["alts", "MatchFirst", ["s1", "s2"]], ["n", "~", "alts"], ["w", "Word", "01,!"], ["root", "MatchFirst", [["n", "w"][0], "alts"]]]
+        else:
+            prog += [["alts", "MatchFirst", ["s1", "s2"]], ["root", "SkipTo", "alts", {"include": True}]]
+        jobs.append(dict(prog=prog, root="root", inputs=["1,0", "1,0!", "1,0,1", "1,0,1!", "x 1,0", "1", "1,", "10,01,1", "0 , 1"]))
     return jobs
 
 
